@@ -7,7 +7,7 @@
 # instrumented.
 rustc="$1"; shift
 case " $* " in
-  *" --crate-name mv_sim "*|*" --crate-name mv_real "*|*" --crate-name bbtarget "*)
+  *" --crate-name mv_sim "*|*" --crate-name mv_real "*|*" --crate-name bbtarget "*|*" --crate-name surf_sim "*|*" --crate-name surf_real "*)
     exec "$rustc" "$@" -C "passes=sancov-module forceattrs tsan" \
       -C llvm-args=-sanitizer-coverage-level=3 -C llvm-args=-sanitizer-coverage-trace-pc-guard \
       -C llvm-args=-force-attribute=sanitize_thread -C llvm-args=-tsan-instrument-memory-accesses=0 \
